@@ -238,7 +238,7 @@ bool FileManager::readStream(std::istream &_istream, MeshT &_mesh,
             hes.clear();
             hes.reserve(static_cast<size_t>(val));
             // Read half-edge indices
-            for(unsigned int e = 0; e < val; ++e) {
+            for(uint64_t e = 0; e < val; ++e) {
 
                 unsigned int v1 = 0;
                 sstr >> v1;
@@ -301,7 +301,7 @@ bool FileManager::readStream(std::istream &_istream, MeshT &_mesh,
             hfs.reserve(static_cast<size_t>(val));
 
             // Read half-face indices
-            for(unsigned int f = 0; f < val; ++f) {
+            for(uint64_t f = 0; f < val; ++f) {
 
                 unsigned int v1 = 0;
                 sstr >> v1;
